@@ -1,12 +1,16 @@
 """Engine-free part of C17: required variables are sufficient and necessary; reported sources are where values came from."""
 from __future__ import annotations
 
+import types
+
 import numpy
 import pandas
 
 FORMULAS = ["a + b", "a:b + c", "`x y` + a", "log(a) + b", "np.log(a) + I(b*c)", "{a + b} + c", "C(A) + a", "center(a):b", "poly(a, 2) + `x y`:c",
             "y ~ a + b", "scale(a, center=False) ~ b | c", "a + f(b, g(c))", "{a + `x y`}", "bs(a, df=3) + A:b", "y ~ . - a",
-            "I(np.log(a) - np.log(b))", "np.log(np.log(c + 10) + 10)", "f(a, v=b)", "np.where(a > 2, a, b)", "y ~ a.clip(0, b)", "np.log(`x.1`) + a", "{b[0] + a}"]
+            "I(np.log(a) - np.log(b))", "np.log(np.log(c + 10) + 10)", "f(a, v=b)", "np.where(a > 2, a, b)", "y ~ a.clip(0, b)", "np.log(`x.1`) + a", "{b[0] + a}",
+            # attribute chains on a data column: the variable is reported with its chain ('a.values.T'); the column it needs is its root
+            "{a.values.T} + b", "I(a.values.real):c", "np.log(a.values.T.real) + `x y`"]
 
 
 def frame():
@@ -28,8 +32,9 @@ def check_formula(formula: str):
     out = []
     df = frame()
     F = Formula(formula, _context={"__formulaic_variables_available__": list(df.columns)}) if "." in formula.split("~")[-1] and " . " in f" {formula} " else Formula(formula)
-    req = set(str(v) for v in F.required_variables)
     known = set(df.columns)
+    root = lambda v: v if v in known else v.split(".", 1)[0]
+    req = set(root(str(v)) for v in F.required_variables)
     if not req <= known:
         out.append(("required-not-in-data", f"{formula!r}: required_variables {sorted(req)} contains names that are not data columns"))
         return out
@@ -52,9 +57,9 @@ def check_formula(formula: str):
         mm.model_spec._map(lambda s: specs.append(s))
         after = set()
         for s in specs:
-            after |= set(str(v) for v in s.required_variables)
+            after |= set(root(str(v)) for v in s.required_variables)
     else:
-        after = set(str(v) for v in mm.model_spec.required_variables)
+        after = set(root(str(v)) for v in mm.model_spec.required_variables)
     if after != req:
         out.append(("required-after-materialization", f"{formula!r}: required variables before {sorted(req)} / after materialization {sorted(after)}"))
     return out
@@ -73,6 +78,11 @@ def check_sources():
         ("log(a)", {"log": lambda v: v * 0 + 7.0}, {"a": "data", "log": "context"}, {"log(a)": [7.0] * 5}),
         ("C(A):z", {"z": numpy.arange(5.0) + 1, "C": None}, None, None),  # a context entry may not break data-first lookup of A
         ("b + c", {"b": numpy.zeros(5), "c": numpy.zeros(5)}, {"b": "data", "c": "data"}, {"b": list(df["b"]), "c": list(df["c"])}),
+        # chains of two or more attribute accesses: the source is that of the ROOT name
+        ("{a.values.T} + b", {}, {"a.values.T": "data", "b": "data"}, {"b": list(df["b"])}),
+        ("{k.opts.w} + a", {"k": types.SimpleNamespace(opts=types.SimpleNamespace(w=numpy.arange(5.0)))}, {"k.opts.w": "context", "a": "data"}, {"k.opts.w": [0.0, 1.0, 2.0, 3.0, 4.0]}),
+        ("{a.values.T.real + k.opts.w}", {"k": types.SimpleNamespace(opts=types.SimpleNamespace(w=numpy.arange(5.0))), "a": types.SimpleNamespace(values=None)},
+         {"a.values.T.real": "data", "k.opts.w": "context"}, {"a.values.T.real + k.opts.w": [1.0, 3.0, 5.5, 7.0, 10.0]}),
     ]
     for formula, ctx, sources, cols in cases:
         if sources is None:
